@@ -139,7 +139,8 @@ type Monitors struct {
 	ReopenID  bool // C10 snapshot identity across reopen
 	Conserve  bool // C11 conservation equation + stats
 	LockIdle  bool // C09 lock leak
-	Partition bool // C04/C11 partition check at quiescent points
+	Partition bool // C04/C11 partition check at quiescent points (disjointness, bounds)
+	Coverage  bool // additionally: no unowned page, meta area total adds up
 	Property  string
 }
 
@@ -190,6 +191,7 @@ type World struct {
 	snapBegin    *txfile.VerifSnapshot
 	metaAtBegin  map[txfile.PageID]bool
 	OverflowEver bool
+	NoCoverage   bool // pages may legitimately be unowned (file shrunk below its extent)
 
 	verCounter uint64
 	Trace      []string
@@ -1264,7 +1266,7 @@ func (w *World) checkPartition(s *txfile.VerifSnapshot, after string) bool {
 			return false
 		}
 	}
-	if w.Mon.Conserve || w.Mon.Partition {
+	if w.Mon.Conserve || w.Mon.Coverage {
 		if uint(metaCount) != s.MetaTotal {
 			w.violate("meta-total", "meta-total", "after %s: meta area holds %d pages (free+in use) but metaTotal=%d", after, metaCount, s.MetaTotal)
 			return false
@@ -1280,7 +1282,7 @@ func (w *World) checkPartition(s *txfile.VerifSnapshot, after string) bool {
 		// coverage: every page below the data end marker has an owner. With
 		// the overflow area in use the markers also cover released overflow
 		// pages; the conservation property (C11) excludes that case.
-		for id := txfile.PageID(2); id < s.DataEnd && !w.OverflowEver; id++ {
+		for id := txfile.PageID(2); id < s.DataEnd && !w.OverflowEver && !w.NoCoverage; id++ {
 			if _, ok := owner[id]; !ok {
 				w.violate("partition-leak", "partition-leak", "after %s: page %d (< data end %d) is neither live, free nor meta: leaked", after, id, s.DataEnd)
 				return false
